@@ -79,6 +79,7 @@ type CLICase struct {
 	// server
 	Reload    *CLIConf `json:"reload,omitempty"`     // written to the store file before SIGHUP (ID nIDs-1 is the marker that shows the reload happened)
 	SameCache bool     `json:"same_cache,omitempty"` // the reloaded configuration names the same cache
+	Back      bool     `json:"back,omitempty"`       // mount: after the reload to Reload, a second one back to Conf
 	Reqs      []int    `json:"reqs,omitempty"`       // IDs requested before the reload
 	Reqs2     []int    `json:"reqs2,omitempty"`      // IDs requested after the reload
 }
@@ -176,6 +177,8 @@ func (cl *CLICase) sane() bool {
 	switch cl.Cmd {
 	case "extract", "cat":
 		return len(cl.Index) >= 1 && okIDs(cl.Index, 12)
+	case "mount":
+		return cl.Reload != nil && cl.Reload.sane() && !cl.SameCache
 	case "server":
 		if !okIDs(cl.Reqs, 12) || !okIDs(cl.Reqs2, 12) {
 			return false
@@ -360,10 +363,31 @@ func (g *gctx) ids(n, hi int, label string) []int {
 func genCLI(t *rapid.T, c *Case) {
 	g := &gctx{t: t}
 	cl := &CLICase{}
-	cl.Cmd = pick(g, []string{"extract", "extract", "extract", "cat", "cat", "server", "server"}, "clicmd")
+	cl.Cmd = pick(g, []string{"extract", "extract", "extract", "cat", "cat", "server", "server", "mount"}, "clicmd")
 	cl.Repair = pick(g, []string{"", "", "true", "false", "false"}, "clirepair")
 	cl.N = pick(g, []int{0, 1, 1, 2, 4}, "clin")
 	cl.Retry = pick(g, []int{0, 1, 1, 2}, "cliretry")
+	if cl.Cmd == "mount" {
+		// reload of the store file: one of the two configurations is often a lone local directory
+		lone := func() CLIConf {
+			cf := g.cliConf(-1, false)
+			cf.Stores, cf.Cache = cf.Stores[:1], nil
+			cf.Stores[0].Members = cf.Stores[0].Members[:1]
+			cf.Stores[0].Members[0].Kind, cf.Stores[0].Members[0].Down, cf.Stores[0].Members[0].Pfx = "dir", "", false
+			return cf
+		}
+		a, b := g.cliConf(-1, false), g.cliConf(-1, false)
+		switch g.u(4, "mountshape") {
+		case 0, 1:
+			a = lone()
+		case 2:
+			b = lone()
+		}
+		cl.Conf, cl.Reload = a, &b
+		cl.Back = g.pct(40, "back")
+		c.CLI = cl
+		return
+	}
 	if cl.Cmd == "server" {
 		marker := -1
 		if g.pct(75, "reload") {
@@ -1015,6 +1039,10 @@ func runCLI(c Case, o *hx.Outcome) {
 		runCLIServer(c, cl, dir, o)
 		return
 	}
+	if cl.Cmd == "mount" {
+		runCLIMount(c, cl, dir, o)
+		return
+	}
 	runCLIOneShot(c, cl, dir, o)
 }
 
@@ -1593,6 +1621,11 @@ func runCLIServer(c Case, cl *CLICase, dir string, o *hx.Outcome) {
 			}
 		} else {
 			o.Class("cli:server:reload-observed")
+			rc2 := *cl.Reload
+			if cl.SameCache {
+				rc2.Cache = cl.Conf.Cache
+			}
+			reloadClasses(cl.Conf, rc2, o)
 			evs["swap"] = true
 			ms := newStep()
 			m2.get(mtop2, cliMarker, ms) // the one request for the marker that reached configuration 2
